@@ -87,6 +87,11 @@ P = ParamSpec("P")
 _X = TypeVar("_X")
 _Y = TypeVar("_Y")
 
+class K:
+    def __init__(self, x: int) -> None: ...
+class CB(Protocol):
+    def __call__(self, x: int) -> K: ...
+
 @overload
 def ov(x: int) -> int: ...
 @overload
@@ -145,6 +150,10 @@ ATOMS: list[tuple[str, str]] = [
     ("Callable[P, int]", "Callable[P, int]"),
     ("Rec", "Rec"),
     ("Slf", "Slf"),
+    # callback protocol whose __call__ matches K's constructor: Type[K] <: CB holds, K <: CB does not
+    ("K", "K"),
+    ("CB", "CB"),
+    ("Type[K]", "Type[K]"),
 ]
 OVERLOADED = "<overloaded ov>"
 
@@ -181,11 +190,53 @@ UNION_CORE = ["object", "int", "bool", "float", "str", "None", "Never", "A", "B"
               "Color", "Callable[[int], str]"]
 # cache-independence mode (iv): queries over these (12 core atoms + same-TypeInfo instances so that the
 # per-TypeInfo subtype caches are actually hit with related keys, incl. promotion-sensitive ones)
-CACHE_CORE = CORE12 + ["float", "Co[D]", "Co[int]", "Co[float]", "Inv[B]", "Inv[D]", "PGen[D]", "list[B]"]
+CACHE_CORE = CORE12 + ["float", "Co[D]", "Co[int]", "Co[float]", "Inv[B]", "Inv[D]", "PGen[D]", "list[B]",
+                       "K", "CB", "Type[K]"]
+# quick runs mode (iv) over this smaller core
+CACHE_CORE_Q = ["int", "float", "B", "D", "Co[int]", "Co[float]", "PGen[B]", "K", "CB", "Type[K]"]
+
+# ---- second sub-universe: PEP 646 variadic tuples with prefix / suffix (all pairs and all chains among
+# them and a few related types).  tuple[P..., *tuple[V, ...], S...] for every prefix and suffix of length
+# 0..2 over TUP_PS, every V in TUP_V, plus every fixed tuple of length 0..3 over TUP_FIXED.
+TUP_PS = {"thorough": ["int", "str", "object"], "quick": ["int", "str"]}
+TUP_V = {"thorough": ["int", "str", "object", "bool"], "quick": ["int", "str", "object"]}
+TUP_FIXED = {"thorough": ["int", "str", "object", "bool"], "quick": ["int", "str", "object"]}
+TUP_FIXED_MAXLEN = {"thorough": 3, "quick": 3}
+TUP_RELATED = ["object", "Never", "None", "NT", "tuple[int, ...]", "Sequence[int]", "Sequence[str]", "Sequence[object]",
+               "list[int]"]
 
 
-def decls(tier: str) -> list[tuple[str, str]]:
-    """[(label, annotation text)] for the tier, simplest first.  label == text (or the atom name)."""
+def tuple_family(tier: str) -> list[str]:
+    import itertools
+
+    allps, allv, allf = TUP_PS["thorough"], TUP_V["thorough"], TUP_FIXED["thorough"]
+    ps, vs, fx = set(TUP_PS[tier]), set(TUP_V[tier]), set(TUP_FIXED[tier])
+    out = []
+    for n in range(0, 4):
+        for items in itertools.product(allf, repeat=n):
+            if not set(items) <= fx:
+                continue
+            if tier == "quick" and n == 3 and "object" in items:
+                continue
+            out.append("tuple[" + (", ".join(items) if items else "()") + "]")
+    for total in range(0, 5):
+        for pl in range(0, 3):
+            sl = total - pl
+            if not 0 <= sl <= 2:
+                continue
+            for pre in itertools.product(allps, repeat=pl):
+                for suf in itertools.product(allps, repeat=sl):
+                    for v in allv:
+                        if not (set(pre) | set(suf) <= ps and v in vs):
+                            continue
+                        out.append("tuple[" + ", ".join(list(pre) + [f"*tuple[{v}, ...]"] + list(suf)) + "]")
+    return out
+
+
+def decls(tier: str) -> tuple[list[tuple[str, str]], dict[str, list[str]]]:
+    """([(label, annotation text)], {group: labels}) for the tier, simplest first.  label == text (or the
+    atom name).  Group "main" = atoms + depth-1 constructions; group "tuples" = variadic tuple family +
+    related types.  The laws are enumerated over all pairs / chains WITHIN each group."""
     out: list[tuple[str, str]] = []
     seen: set[str] = set()
 
@@ -209,10 +260,15 @@ def decls(tier: str) -> list[tuple[str, str]]:
         for a in bin_atoms:
             for b in bin_atoms:
                 add(tmpl.format(x=txt[a], y=txt[b]), tmpl.format(x=txt[a], y=txt[b]))
-    for extra in CACHE_CORE + UNION_CORE:
+    for extra in CACHE_CORE + CACHE_CORE_Q + UNION_CORE + TUP_RELATED:
         if extra not in seen:
             add(extra, extra)
-    return out
+    main = [l for l, _ in out]
+    fam = tuple_family(tier)
+    for lab in fam:
+        add(lab, lab)
+    tup = list(TUP_RELATED) + [l for l in fam if l not in TUP_RELATED]
+    return out, {"main": main, "tuples": tup}
 
 
 def source(dl: list[tuple[str, str]]) -> tuple[str, dict[int, int]]:
@@ -241,6 +297,7 @@ class Universe:
         self.index: dict[str, int] = {}
         self.build_messages: list[str] = []
         self.tier = ""
+        self.groups: dict[str, list[int]] = {}
 
     def __len__(self) -> int:
         return len(self.types)
@@ -322,7 +379,7 @@ def load(tier: str, root: str) -> Universe:
 
     from mc.drivers import make_options
 
-    dl = decls(tier)
+    dl, group_labels = decls(tier)
     text, line_of = source(dl)
     os.makedirs(root, exist_ok=True)
     path = os.path.join(root, MODULE + ".py")
@@ -389,5 +446,7 @@ def load(tier: str, root: str) -> Universe:
         u.types.append(t)
         u.strs.append(tstr(t))
         u.any_free.append(not contains_any(t))
+    for g, labs in group_labels.items():
+        u.groups[g] = [u.index[l] for l in labs if l in u.index]
     _CACHE[tier] = u
     return u
